@@ -82,7 +82,8 @@ def final_of(t):
     o = t['steps'][-1]['obs']
     root = [w for w in o['wf'] if w['sid'] == 'r'][0]
     return {'wf': root['state'], 'tasks': [[x['name'], x['state']] for x in o['tk']],
-            'subs': [[w['name'], w['state']] for w in o['wf'] if w['sid'] != 'r']}
+            'subs': [[w['name'][len(t['prog'].get('wbprefix', '')):] if w['name'].startswith(t['prog'].get('wbprefix', '') or '\0') else w['name'], w['state']]
+                     for w in o['wf'] if w['sid'] != 'r']}
 
 
 def judge(d, traces, chunk=300):
